@@ -28,8 +28,8 @@ Proof.
   { unfold legal in *. rewrite Evp. eapply Forall2_mono; [|exact Hlegal]. intros p a [H1 H2]. split.
     - apply (registered_perm R R' Hperm Hal). exact H1.
     - apply (anc_perm R R' Hperm Hal). exact H2. }
-  destruct (dispatch_correct R C mi m args Hwf HC Hm Hlegal) as [cs [E Hr]].
-  destruct (dispatch_correct R' C' mi' m' args Hwf' HC' Hm' Hlegal') as [cs' [E' Hr']].
+  destruct (dispatch_correct R [] C mi m args Hwf HC Hm Hlegal) as [cs [E Hr]].
+  destruct (dispatch_correct R' [] C' mi' m' args Hwf' HC' Hm' Hlegal') as [cs' [E' Hr']].
   exists cs, cs', (spec_dispatch R (meth_defs R m) args), (spec_dispatch R' (meth_defs R' m') args).
   repeat split; try assumption.
   rewrite Edefs. apply (spec_dispatch_perm R R' Hperm Hal (meth_defs R m) sigma Hsig args).
@@ -48,7 +48,7 @@ Theorem next_order_independent R R' C C' mi mi' m m' sigma k' :
 Proof.
   intros Hwf Hwf' HC HC' Hperm Hal Hm Hm' Edefs Hsig Hk Hl Hk2.
   exists (spec_next R (meth_defs R m) (nth k' sigma 0)), (spec_next R' (meth_defs R' m') k').
-  split; [apply next_correct; assumption|]. split; [apply next_correct; try assumption; lia|].
+  split; [apply (next_correct R []); assumption|]. split; [apply (next_correct R' []); try assumption; lia|].
   rewrite Edefs. apply (spec_next_perm R R' Hperm Hal (meth_defs R m) sigma Hsig k').
   unfold meth_defs. rewrite map_length. exact Hk.
 Qed.
